@@ -236,10 +236,27 @@ def run(chk):
         if not have_j:
             continue
         db = C.CanMatrix()
+        # in some matrices the J1939 flag is set in place AFTER the matrix has been built and asked once (as the importers and
+        # canconvert's convertToJ1939 do): what the matrix answered while no frame was flagged must not survive the flagging
+        late_flag = rng.random() < 0.4
+        built = []
         for uid, fid, ext, isj in frames_desc:
-            fr = C.Frame("F%d" % uid, arbitration_id=C.ArbitrationId(fid, ext), size=8, is_j1939=isj)
+            fr = C.Frame("F%d" % uid, arbitration_id=C.ArbitrationId(fid, ext), size=8, is_j1939=(isj and not late_flag))
             fr.add_signal(C.Signal("s%d" % uid, start_bit=0, size=8))
             db.add_frame(fr)
+            built.append((fr, isj))
+        if late_flag:
+            chk.count("matrix-flagged-after-first-use")
+            for uid, fid, ext, isj in frames_desc[:2]:
+                try:
+                    db.decode(C.ArbitrationId(fid, ext), bytes(8))       # a frame's own identifier: decodes in either state
+                except Exception as e:
+                    chk.violation("decode-own-id-raises", "decoding a frame's own identifier raised before any frame was flagged J1939",
+                                  dict(frames=frames_desc, probe=(fid, ext)), "decoded", type(e).__name__)
+            _ = db.contains_j1939
+            for fr, isj in built:
+                if isj:
+                    fr.is_j1939 = True
         probes = []
         for uid, fid, ext, isj in frames_desc:
             probes.append((fid, ext))
